@@ -136,6 +136,19 @@ CHECKS["C06"] = dict(
          "loops; trampoline nesting never exceeds max(1, depth) and no deferred item is left when the outermost start returns.",
     note=MT_NOTE)
 
+CHECKS["C07"] = dict(
+    level="exploration", design="5 C07",
+    technique="runtime monitoring: scheduler-clock reading inside each completion (never early), gate-batched co-queued timers "
+              "checked for (due, submission) order, cross-thread cancel storms with exactly-once counters, far-future cancel "
+              "with a logical marker, heap operation states freed at completion under ASan, TSan; generated time_point "
+              "arithmetic vs an __int128 model",
+    text="On timed_single_thread_context, io_epoll_context, io_uring_context and thread_unsafe_event_loop: batches of "
+         "schedule_at operations queued behind a gate item, schedule_after operations racing stop requests issued from "
+         "another thread around their due time (or before start), and +1h timers that are cancelled. Each operation must "
+         "complete exactly once, never before its due time on the scheduler's clock, in due-time order with ties in "
+         "submission order, with done when cancelled; freed operation states catch a context that keeps a reference.",
+    note=MT_NOTE)
+
 NOT_YET = "check not built yet (construction in progress, see DESIGN.md section 10)"
 
 
